@@ -15,21 +15,21 @@ func init() { register("C03", "other", checkC03) }
 // symWalker: path walk of dumpCdrFile under an assignment of the
 // release-identifier tests, with a memory model for the local file structure.
 type symWalker struct {
-	c       *Ctx
-	f       *ssa.Function
-	assign  map[string]bool
-	mem     map[memKey]ssa.Value
-	memSym  map[memKey]string
-	phi     map[*ssa.Phi]ssa.Value
-	loopSym map[*ssa.Phi]string
-	fe      *formEval
-	inLoop  bool
-	atLoop  map[string]string // member path -> form when the loop is entered
-	delta   map[string]string // member path -> per-iteration increment
-	final   map[string]string // member path -> form at the end of the walk (header phase)
-	appends []map[string]ssa.Value
-	apForms []map[string]string
-	visited int
+	c         *Ctx
+	f         *ssa.Function
+	assign    map[string]bool
+	mem       map[memKey]ssa.Value
+	memSym    map[memKey]string
+	phi       map[*ssa.Phi]ssa.Value
+	loopSym   map[*ssa.Phi]string
+	fe        *formEval
+	inLoop    bool
+	atLoop    map[string]string // member path -> form when the loop is entered
+	delta     map[string]string // member path -> per-iteration increment
+	final     map[string]string // member path -> form at the end of the walk (header phase)
+	appends   []map[string]ssa.Value
+	apForms   []map[string]string
+	visited   int
 	loopOver  ssa.Value
 	loaded    map[*ssa.UnOp]loadedVal // value each load saw when it executed
 	loopMem   map[memKey]string
